@@ -151,6 +151,13 @@ fn main() -> Result<()> {
         if source == &target_base {
             return Err(XcpError::InvalidSource("Source is same as destination").into());
         }
+
+        // A directory cannot replace a file at the path it maps to
+        // either; catch it here rather than after earlier sources
+        // have already been copied.
+        if is_dir(source)? && target_base.try_exists()? && !is_dir(&target_base)? {
+            return Err(XcpError::InvalidDestination("Cannot copy a directory to a file.").into());
+        }
     }
 
 
